@@ -406,10 +406,22 @@ func genOps(r *rt.Rand, c fcfg, n int) []fop {
 			ops = append(ops, fop{Kind: "reopen"})
 		case x < 92:
 			ops = append(ops, fop{Kind: "rename"})
-			if r.Intn(4) > 0 {
-				ops = append(ops, fop{Kind: "reopen"})
-			} else {
+			switch r.Intn(6) {
+			case 0:
 				ops = append(ops, fop{Kind: "write", Len: r.Range(8, 60)}, fop{Kind: "reopen"})
+			case 1:
+				// nobody tells the sink: it keeps writing (to the moved file through its descriptor) until a
+				// rotation is due, which then cannot rename the active file; the writes after that one must
+				// find a new active file
+				for k := r.Range(2, 5); k > 0; k-- {
+					l := r.Range(8, 60)
+					if c.MaxBytes > 8 && r.Bool() {
+						l = c.MaxBytes
+					}
+					ops = append(ops, fop{Kind: "write", Len: l})
+				}
+			default:
+				ops = append(ops, fop{Kind: "reopen"})
 			}
 		default:
 			if c.MaxDurMS > 0 {
